@@ -456,6 +456,7 @@ type Contract struct {
 	LoopMod    map[int][]string
 	PanicsOK   bool
 	PureFuncs  []string // function-valued parameters / variables assumed pure (`pure f, g`)
+	Counts     []string // callee names whose calls are counted ($calls(name))
 	Wakeup     string // every blocking channel operation of the body must be a select with a receive case on this expression
 	CheckGo    bool   // spawned calls are executed on a forked state for their obligations
 	ArithWrap  bool   // integer arithmetic wraps around (exact two's complement) instead of raising overflow obligations
@@ -506,7 +507,7 @@ type ContractFile struct {
 
 var clauseKW = map[string]bool{"contract": true, "extern": true, "requires": true, "ensures": true, "assigns": true,
 	"loop": true, "pred": true, "func": true, "ufunc": true, "axiom": true, "guards": true, "lockinv": true, "rely": true,
-	"chaninv": true, "chanassume": true, "ghost": true, "trusted": true, "panics": true, "props": true, "quiet": true, "pure": true, "firstdefer": true, "checkgo": true, "wakeup": true, "callpre": true, "arith": true, "writepre": true, "deletepre": true}
+	"chaninv": true, "chanassume": true, "ghost": true, "trusted": true, "panics": true, "props": true, "quiet": true, "pure": true, "firstdefer": true, "checkgo": true, "wakeup": true, "counts": true, "callpre": true, "arith": true, "writepre": true, "deletepre": true}
 
 func firstWord(s string) string {
 	s = strings.TrimSpace(s)
@@ -721,6 +722,10 @@ func parseContractText(data, path, pkg string) (*ContractFile, error) {
 		case "firstdefer":
 			if cur != nil {
 				cur.FirstDefer = rest
+			}
+		case "counts":
+			if cur != nil {
+				cur.Counts = append(cur.Counts, strings.Fields(strings.ReplaceAll(rest, ",", " "))...)
 			}
 		case "wakeup":
 			if cur != nil {
